@@ -103,8 +103,9 @@ Inductive ak :=
 
 Inductive lpc :=
 | LIdle                                       (* select on triggerSync *)
-| LSync                                       (* sync(): about to read pending.Head() (localHead) *)
-| LSync1 (subj : hdr)                         (* about to load the store head (shim cache) *)
+| LSync                                       (* sync(): localHead: about to read pending.Head() *)
+| LSync1 (ph : option hdr)                    (* localHead: about to load the store head (shim cache) *)
+| LSync2 (subj : hdr)                         (* sync(): subjective head known; about to load the store head again *)
 | LFirst (from : hdr) (to : N)                (* processHeaders: about to call pending.First() *)
 | LGet (from : hdr) (to : N)                  (* about to call Get(to) on the range First returned *)
 | LReq (k : rk) (from : hdr) (to : N)         (* requestHeaders loop head: getter call, or exit *)
@@ -128,9 +129,10 @@ Inductive bifres := Bif (promoted : list hdr) (ok : bool).
 
 Inductive tpc :=
 | TWait (h : hdr) (now : Z) (b : bifres)      (* gossip verifier call: waiting for incomingMu, then pending.Head() *)
-| TVer (h : hdr) (now : Z) (b : bifres)       (* incomingMu held, pending was empty: about to load the cache as localHead *)
+| TVer (h : hdr) (now : Z) (b : bifres) (ph : option hdr)
+                                              (* incomingMu held, pending.Head() = ph read: about to load the store head for localHead *)
 | THd0 (a : option hdr)                       (* Head() needing a network head: about to read pending.Head() *)
-| THd0c (a : option hdr)                      (* pending was empty: about to load the cache *)
+| THd0c (a : option hdr) (ph : option hdr)    (* pending.Head() = ph read: about to load the store head *)
 | THd1 (sbj : hdr) (a : option hdr)           (* getter.Head(WithTrustedHead(sbj)) in flight; a = its answer *)
 | TRun (mu res : bool) (x : hdr) (st : slst) (rest : list hdr)
                                               (* in setLocalHead(x) at stage st; then the same for rest; mu = holds incomingMu; res = final verdict *)
@@ -152,9 +154,10 @@ Record cfg := Cfg {
 
 Definition last_hdr (hs : list hdr) (d : hdr) : hdr := last hs d.
 
-(** localHead's pure part: the height State() reports *)
-Definition local_head (c : cfg) : hdr :=
-  match ranges_head (c_pend c) with Some p => p | None => c_cache c end.
+(** localHead: the pending head if it is above the store head, else the store head *)
+Definition pick_head (ph : option hdr) (sh : hdr) : hdr :=
+  match ph with Some p => if h_height sh <? h_height p then p else sh | None => sh end.
+Definition local_head (c : cfg) : hdr := pick_head (ranges_head (c_pend c)) (c_cache c).
 
 (** the range request the sync loop is about to issue, if its next step is one:
     (from height, the [to] of requestHeaders) *)
@@ -187,12 +190,9 @@ Definition after_app (k : ak) (hs : list hdr) (c : cfg) : cfg :=
 Definition l_step (a : ganswer) (c : cfg) : cfg :=
   match c_loop c with
   | LIdle => if c_trig c then c <| c_trig := false |> <| c_loop := LSync |> else c
-  | LSync =>
-    match ranges_head (c_pend c) with
-    | None => c <| c_loop := LIdle |>        (* localHead = store head: nothing to sync *)
-    | Some p => c <| c_loop := LSync1 p |>
-    end
-  | LSync1 p =>
+  | LSync => c <| c_loop := LSync1 (ranges_head (c_pend c)) |>
+  | LSync1 ph => c <| c_loop := LSync2 (pick_head ph (c_cache c)) |>
+  | LSync2 p =>
     let sh := c_cache c in
     if h_height p <=? h_height sh then
       (* already synced: drop the pending heads the store already has *)
@@ -302,18 +302,10 @@ Definition t_body (i : nat) (t : tpc) (c : cfg) : cfg :=
   | TWait h now b =>
     if c_mu c then c
     else
-      let c := c <| c_mu := true |> in
-      match ranges_head (c_pend c) with
-      | Some p => enter i (verdict now b p h) c
-      | None => set_thr i (TVer h now b) c
-      end
-  | TVer h now b => enter i (verdict now b (c_cache c) h) c
-  | THd0 a =>
-    match ranges_head (c_pend c) with
-    | Some p => set_thr i (THd1 p a) c
-    | None => set_thr i (THd0c a) c
-    end
-  | THd0c a => set_thr i (THd1 (c_cache c) a) c
+      set_thr i (TVer h now b (ranges_head (c_pend c))) (c <| c_mu := true |>)
+  | TVer h now b ph => enter i (verdict now b (pick_head ph (c_cache c)) h) c
+  | THd0 a => set_thr i (THd0c a (ranges_head (c_pend c))) c
+  | THd0c a ph => set_thr i (THd1 (pick_head ph (c_cache c)) a) c
   | THd1 sbj a =>
     match a with
     | None => set_thr i (TDone false) c
